@@ -307,6 +307,24 @@ func BuildMessage(r *rec.Rec) (util.Message, error) {
 		if err != nil {
 			return nil, err
 		}
+		if es := r.List("elements"); len(es) > 0 {
+			for i, e := range es {
+				bm := e.Bytes("bitmaps")
+				var vb *common.HelloElemVersionBitmap
+				if i == 0 && len(h.Elements) == 1 {
+					vb, _ = h.Elements[0].(*common.HelloElemVersionBitmap)
+				}
+				if vb == nil {
+					vb = common.NewHelloElemVersionBitmap()
+					h.Elements = append(h.Elements, vb)
+				}
+				vb.Bitmaps = nil
+				for j := 0; j+4 <= len(bm); j += 4 {
+					vb.Bitmaps = append(vb.Bitmaps, binary.BigEndian.Uint32(bm[j:]))
+				}
+				vb.Length = 4 + uint16(len(bm))
+			}
+		}
 		setXid(&h.Header, r)
 		return h, nil
 	case "echo_request":
@@ -399,7 +417,10 @@ func BuildMessage(r *rec.Rec) (util.Message, error) {
 		return p, nil
 	case "port_mod":
 		p := of.NewPortMod(int(r.U32("port_no")))
-		p.HWAddr = append([]byte(nil), pad6(r.Bytes("hw_addr"))...)
+		p.HWAddr = append([]byte(nil), r.Bytes("hw_addr")...) // any length the exported field accepts (nil, EUI-64, IPoIB ...); the wire slot is 6 bytes
+		if len(p.HWAddr) == 0 {
+			p.HWAddr = nil
+		}
 		p.Config = r.U32("config")
 		p.Mask = r.U32("mask")
 		p.Advertise = r.U32("advertise")
@@ -469,7 +490,18 @@ func BuildMessage(r *rec.Rec) (util.Message, error) {
 		if err != nil {
 			return nil, err
 		}
-		v := of.NewBundleAdd(&of.BundleAdd{BundleID: r.U32("bundle_id"), Flags: r.U16("flags"), Message: inner})
+		ba := &of.BundleAdd{BundleID: r.U32("bundle_id"), Flags: r.U16("flags"), Message: inner}
+		for _, pr := range r.List("properties") {
+			body := pr.Bytes("body")
+			if len(body) != 8 {
+				return nil, fmt.Errorf("lib: a bundle property with a payload cannot be built through the API")
+			}
+			bp := of.NewBundlePropertyExperimenter()
+			bp.Type = pr.U16("type")
+			bp.ExperimenterID, bp.ExperimenterType = u32(body[:4]), u32(body[4:])
+			ba.Properties = append(ba.Properties, *bp)
+		}
+		v := of.NewBundleAdd(ba)
 		setXid(&v.Header, r)
 		return v, nil
 	}
